@@ -1,36 +1,70 @@
 ------------------------------ MODULE ParamCodec ------------------------------
 (***************************************************************************)
 (* L1: OpenAPI 3.0.3 parameter serialisation ("style table", section       *)
-(* 4.7.12.x Style Values / Style Examples) written as a function from a    *)
-(* value to its wire fragment, for every legal (in, style, explode) cell.  *)
-(* Decoding is specified as the inverse: a request carrying Wire(cell, v)  *)
-(* must decode to v.                                                       *)
+(* 4.7.12.x Style Values / Style Examples, which defers to RFC 6570)       *)
+(* written as a function from a value to its wire fragment, for every      *)
+(* legal (in, style, explode) cell.  Decoding is specified as the inverse: *)
+(* a request carrying Wire(cell, v) must decode to v.                      *)
 (*                                                                         *)
-(* A wire fragment is  [kind |-> "path", seg |-> STRING]                   *)
-(*                     [kind |-> "query", pairs |-> <<[k, v], ...>>]       *)
+(* The wire text is built here character by character (sequences of one-   *)
+(* character strings, "cs"), INCLUDING the percent-encoding of the request *)
+(* line: in a path segment and in the query string the *content* of a      *)
+(* value (a string, an array item, a property name or value) is percent-   *)
+(* encoded, the *structure* of the style (prefix, delimiters, "=") is not.  *)
+(* So a member that contains the style's own delimiter is written with the *)
+(* delimiter escaped (RFC 6570 3.2.1: reserved characters of a value are   *)
+(* pct-encoded): ["a,b","c"] in style simple is  a%2Cb,c .                 *)
+(* Headers and cookies have no such layer: there a value containing the    *)
+(* cell's delimiter has no serialisation (Unwritable).                     *)
+(*                                                                         *)
+(* A wire fragment is  [kind |-> "path", seg |-> STRING]       (raw text)  *)
+(*                     [kind |-> "query", pairs |-> <<[k, v], ...>>] (raw) *)
 (*                     [kind |-> "header", val |-> STRING]                 *)
 (*                     [kind |-> "cookie", val |-> STRING]                 *)
-(* (unescaped: the realiser percent-encodes keys and values of query pairs)*)
+(* The realiser places the text verbatim.                                  *)
 (***************************************************************************)
 EXTENDS SchemaSem, TLC
 
-RECURSIVE Join(_, _)
-Join(ss, sep) == IF ss = <<>> THEN "" ELSE IF Len(ss) = 1 THEN ss[1] ELSE ss[1] \o sep \o Join(Tail(ss), sep)
+RECURSIVE Flat(_)
+Flat(ss) == IF ss = <<>> THEN <<>> ELSE Head(ss) \o Flat(Tail(ss))                \* <<cs, cs, ...>> -> cs
+RECURSIVE JoinCs(_, _)
+JoinCs(ss, sep) == IF ss = <<>> THEN <<>> ELSE IF Len(ss) = 1 THEN ss[1] ELSE ss[1] \o sep \o JoinCs(Tail(ss), sep)
 RECURSIVE Concat(_)
-Concat(ss) == IF ss = <<>> THEN "" ELSE Head(ss) \o Concat(Tail(ss))
+Concat(ss) == IF ss = <<>> THEN "" ELSE Head(ss) \o Concat(Tail(ss))              \* cs -> STRING
 
 (* decimal text of the quarter numbers of the universe *)
-NumText(q) == CASE q = -12 -> "-3" [] q = -6 -> "-1.5" [] q = -4 -> "-1" [] q = 0 -> "0" [] q = 1 -> "0.25"
-                [] q = 4 -> "1" [] q = 8 -> "2" [] q = 12 -> "3" [] q = 28 -> "7" [] q = 48 -> "12" [] q = 6 -> "1.5"
+NumQs == {-12, -6, -4, 0, 1, 4, 6, 8, 12, 28, 48}
+NumCs(q) == CASE q = -12 -> <<"-", "3">> [] q = -6 -> <<"-", "1", ".", "5">> [] q = -4 -> <<"-", "1">> [] q = 0 -> <<"0">>
+              [] q = 1 -> <<"0", ".", "2", "5">> [] q = 4 -> <<"1">> [] q = 8 -> <<"2">> [] q = 12 -> <<"3">> [] q = 28 -> <<"7">>
+              [] q = 48 -> <<"1", "2">> [] q = 6 -> <<"1", ".", "5">>
 
-PrimText(v) == CASE v.t = "num"  -> NumText(v.q)
-                 [] v.t = "bool" -> IF v.b THEN "true" ELSE "false"
-                 [] v.t = "str"  -> Concat(v.cs)
+(* the characters of the property names of the universe *)
+KeyCs(k) == CASE k = "x" -> <<"x">> [] k = "y" -> <<"y">> [] k = "o" -> <<"o">> [] k = "w" -> <<"w">>
+              [] k = "k,1" -> <<"k", ",", "1">> [] k = "z" -> <<"z">> [] k = "P" -> <<"P">> [] k = "p" -> <<"p">>
+(* every name that can occur as a query key or property name in the universe, in the order object keys are compared *)
+AllKeys == <<"P", "k,1", "o", "p", "w", "x", "y", "z">>
 
-Texts(a) == [i \in DOMAIN a |-> PrimText(a[i])]
-KV(o, sep) == [i \in DOMAIN o.k |-> o.k[i] \o sep \o PrimText(o.v[i])]          \* <<"x=1", "y=a">>
-RECURSIVE FlatKV(_, _)
-FlatKV(ks, vs) == IF ks = <<>> THEN <<>> ELSE <<Head(ks), PrimText(Head(vs))>> \o FlatKV(Tail(ks), Tail(vs))
+(* ---- percent-encoding ---- *)
+NonAlnum == {" ", "\t", "+", "%", "&", "=", ",", "|", ".", ";", "-", "[", "]", "/"}     \* of the alphabet of the universe
+Pct(ch) == CASE ch = " " -> <<"%", "2", "0">> [] ch = "\t" -> <<"%", "0", "9">> [] ch = "+" -> <<"%", "2", "B">>
+             [] ch = "%" -> <<"%", "2", "5">> [] ch = "&" -> <<"%", "2", "6">> [] ch = "=" -> <<"%", "3", "D">>
+             [] ch = "," -> <<"%", "2", "C">> [] ch = "|" -> <<"%", "7", "C">> [] ch = "." -> <<"%", "2", "E">>
+             [] ch = ";" -> <<"%", "3", "B">> [] ch = "-" -> <<"%", "2", "D">> [] ch = "[" -> <<"%", "5", "B">>
+             [] ch = "]" -> <<"%", "5", "D">> [] ch = "/" -> <<"%", "2", "F">>
+(* an encoding policy: the characters written as %XX, and whether a space is written "+" (query strings) *)
+EncCs(enc, cs) == Flat([i \in DOMAIN cs |-> IF cs[i] = " " /\ enc.plus THEN <<"+">>
+                                             ELSE IF cs[i] \in enc.set THEN Pct(cs[i]) ELSE <<cs[i]>>])
+NoEnc == [set |-> {}, plus |-> FALSE]
+
+PrimCs(enc, v) == CASE v.t = "num"  -> EncCs(enc, NumCs(v.q))
+                    [] v.t = "bool" -> IF v.b THEN <<"t", "r", "u", "e">> ELSE <<"f", "a", "l", "s", "e">>
+                    [] v.t = "str"  -> EncCs(enc, v.cs)
+KeyE(enc, k) == EncCs(enc, KeyCs(k))
+
+Items(enc, a) == [i \in DOMAIN a |-> PrimCs(enc, a[i])]
+KV(enc, o, sep) == [i \in DOMAIN o.k |-> KeyE(enc, o.k[i]) \o sep \o PrimCs(enc, o.v[i])]          \* <<"x=1", "y=a">>
+RECURSIVE FlatKV(_, _, _)
+FlatKV(enc, ks, vs) == IF ks = <<>> THEN <<>> ELSE <<KeyE(enc, Head(ks)), PrimCs(enc, Head(vs))>> \o FlatKV(enc, Tail(ks), Tail(vs))
 
 IsPrim(v) == v.t \in {"num", "bool", "str"}
 IsFlatObj(v) == v.t = "obj" /\ \A i \in DOMAIN v.v : IsPrim(v.v[i])
@@ -43,25 +77,38 @@ Cells ==
    \cup [in : {"header"}, style : {"simple"}, explode : BOOLEAN]
    \cup [in : {"cookie"}, style : {"form"}, explode : BOOLEAN]
 
-(* which value shapes OAS defines for a cell *)
-(* characters occurring in the strings of a value *)
+(* characters occurring in the strings and property names of a value *)
 RECURSIVE Chars(_)
 Chars(v) == CASE v.t = "str" -> Range(v.cs)
               [] v.t = "arr" -> UNION {Chars(v.a[i]) : i \in DOMAIN v.a}
-              [] v.t = "obj" -> UNION {Chars(v.v[i]) : i \in DOMAIN v.v}
+              [] v.t = "obj" -> UNION {Chars(v.v[i]) : i \in DOMAIN v.v} \cup UNION {Range(KeyCs(v.k[i])) : i \in DOMAIN v.k}
               [] OTHER -> {}
 
-(* characters that are structure, not content, for a value of this kind in this cell: a string holding one *)
-(* of them has no unambiguous serialisation there (OAS leaves escaping of delimiters open)                  *)
-Structural(c, v) ==
-   (IF v.t = "arr" THEN (CASE c.style = "spaceDelimited" -> {" "} [] c.style = "pipeDelimited" -> {"|"}
-                           [] c.style = "label" /\ c.explode -> {"."} [] c.style = "matrix" /\ c.explode -> {";"}
-                           [] c.style = "form" /\ c.explode -> {} [] OTHER -> {","})
-    ELSE IF v.t = "obj" THEN {",", "=", ".", ";", "[", "]"} ELSE {})
-   \cup (IF c.in = "path" THEN {"/"} ELSE {})
-   \* cookies and headers carry their value unescaped: only the query string and the path are percent-encoded by the realiser
-   \cup (IF c.in = "cookie" THEN {" ", "\t", "+", "%", "&", "=", ",", "|", ";"} ELSE {})
+(* characters that are structure, not content, for a value of this kind in this cell *)
+Delims(c, v) ==
+   IF v.t = "arr" THEN (CASE c.style = "spaceDelimited" -> {" "} [] c.style = "pipeDelimited" -> {"|"}
+                          [] c.style = "label" /\ c.explode -> {"."} [] c.style = "matrix" /\ c.explode -> {";"}
+                          [] c.style = "form" /\ c.explode -> {} [] OTHER -> {","})
+   ELSE IF v.t = "obj" THEN (CASE c.style = "deepObject" -> {"[", "]"}
+                               [] c.in = "query" /\ c.explode -> {}                \* one query pair per property, each escaped
+                               [] c.in = "path" -> {",", "=", ".", ";"}
+                               [] OTHER -> {",", "=", ".", ";", "[", "]"})
+   ELSE {}
+
+(* cells whose wire is percent-encoded text AND whose delimiters are characters RFC 6570 leaves literal: there a   *)
+(* delimiter inside a member is written escaped.  spaceDelimited / pipeDelimited are not RFC 6570 styles (their    *)
+(* delimiters are themselves written %20 / %7C by clients), deepObject has no escape for brackets in names.        *)
+Escapable(c) == c.in = "path" \/ (c.in = "query" /\ c.style = "form")
+
+(* characters a value must not contain to have a serialisation in this cell at all *)
+Unwritable(c, v) ==
+   (IF Escapable(c) THEN {} ELSE Delims(c, v))
+   \* cookies and headers carry their value unescaped
+   \cup (IF c.in = "cookie" THEN {" ", "\t", "+", "%", "&", "=", ",", "|", ";", "/"} ELSE {})
    \cup (IF c.in = "header" THEN {"\t"} ELSE {})
+
+(* kept under its old name for readers of earlier rounds *)
+Structural(c, v) == Unwritable(c, v)
 
 ShapeDefined(c, v) ==
    CASE c.style = "deepObject" -> v.t = "obj"
@@ -70,73 +117,106 @@ ShapeDefined(c, v) ==
                            \* exploded arrays/objects cannot be written in one cookie
      [] OTHER -> IsPrim(v) \/ v.t = "arr" \/ IsFlatObj(v)
 
-Defined(c, v) == ShapeDefined(c, v) /\ Chars(v) \cap Structural(c, v) = {}
+Defined(c, v) == ShapeDefined(c, v) /\ Chars(v) \cap Unwritable(c, v) = {}
 
-PathSeg(c, name, v) ==
+(* the value uses a delimiter of its cell as content (written escaped) *)
+UsesEscapedDelim(c, v) == Escapable(c) /\ Chars(v) \cap Delims(c, v) # {}
+
+(* ---- encoding policies: "min" = what a client must escape (Go's url.PathEscape / url.QueryEscape, plus the      *)
+(* cell's delimiters where they are content); "all" = every non-alphanumeric character of content escaped (RFC     *)
+(* 3986 2.3/6.2.2.2: equivalent); "rawbr" (deepObject) = as min, the brackets of the names left literal            *)
+Modes == {"min", "all", "rawbr"}
+PathMin == {" ", "\t", "%", "|", "/", "[", "]"}
+Enc(c, v, mode) ==
+   CASE c.in = "path"  -> [set |-> IF mode = "all" THEN NonAlnum ELSE PathMin \cup Delims(c, v), plus |-> FALSE]
+     [] c.in = "query" -> [set |-> IF mode = "all" THEN NonAlnum ELSE NonAlnum \ {"-", "."}, plus |-> mode # "all"]
+     [] OTHER -> NoEnc
+
+PathCs(c, name, v, e) ==
    CASE c.style = "simple" ->
-          (CASE IsPrim(v) -> PrimText(v)
-             [] v.t = "arr" -> Join(Texts(v.a), ",")
-             [] v.t = "obj" -> IF c.explode THEN Join(KV(v, "="), ",") ELSE Join(FlatKV(v.k, v.v), ","))
+          (CASE IsPrim(v) -> PrimCs(e, v)
+             [] v.t = "arr" -> JoinCs(Items(e, v.a), <<",">>)
+             [] v.t = "obj" -> IF c.explode THEN JoinCs(KV(e, v, <<"=">>), <<",">>) ELSE JoinCs(FlatKV(e, v.k, v.v), <<",">>))
      [] c.style = "label" ->
-          (CASE IsPrim(v) -> "." \o PrimText(v)
-             [] v.t = "arr" -> "." \o Join(Texts(v.a), IF c.explode THEN "." ELSE ",")
-             [] v.t = "obj" -> "." \o (IF c.explode THEN Join(KV(v, "="), ".") ELSE Join(FlatKV(v.k, v.v), ",")))
+          (CASE IsPrim(v) -> <<".">> \o PrimCs(e, v)
+             [] v.t = "arr" -> <<".">> \o JoinCs(Items(e, v.a), IF c.explode THEN <<".">> ELSE <<",">>)
+             [] v.t = "obj" -> <<".">> \o (IF c.explode THEN JoinCs(KV(e, v, <<"=">>), <<".">>) ELSE JoinCs(FlatKV(e, v.k, v.v), <<",">>)))
      [] c.style = "matrix" ->
-          (CASE IsPrim(v) -> ";" \o name \o "=" \o PrimText(v)
-             [] v.t = "arr" -> IF c.explode THEN Concat([i \in DOMAIN v.a |-> ";" \o name \o "=" \o PrimText(v.a[i])])
-                               ELSE ";" \o name \o "=" \o Join(Texts(v.a), ",")
-             [] v.t = "obj" -> IF c.explode THEN Concat([i \in DOMAIN v.k |-> ";" \o v.k[i] \o "=" \o PrimText(v.v[i])])
-                               ELSE ";" \o name \o "=" \o Join(FlatKV(v.k, v.v), ","))
+          (CASE IsPrim(v) -> <<";">> \o name \o <<"=">> \o PrimCs(e, v)
+             [] v.t = "arr" -> IF c.explode THEN Flat([i \in DOMAIN v.a |-> <<";">> \o name \o <<"=">> \o PrimCs(e, v.a[i])])
+                               ELSE <<";">> \o name \o <<"=">> \o JoinCs(Items(e, v.a), <<",">>)
+             [] v.t = "obj" -> IF c.explode THEN Flat([i \in DOMAIN v.k |-> <<";">> \o KeyE(e, v.k[i]) \o <<"=">> \o PrimCs(e, v.v[i])])
+                               ELSE <<";">> \o name \o <<"=">> \o JoinCs(FlatKV(e, v.k, v.v), <<",">>))
 
 Pair(k, v) == [k |-> k, v |-> v]
 
-(* deepObject: p[x]=1, nested objects p[o][y]=a *)
-RECURSIVE DeepPairs(_, _)
-DeepPairs(prefix, o) ==
+(* deepObject: p[x]=1, nested objects p[o][y]=a; br = the two brackets as written.  Pairs of cs. *)
+RECURSIVE DeepPairs(_, _, _, _)
+DeepPairs(prefix, o, e, br) ==
    IF o.k = <<>> THEN <<>>
    ELSE LET k == Head(o.k) x == Head(o.v)
-            rest == DeepPairs(prefix, [o EXCEPT !.k = Tail(o.k), !.v = Tail(o.v)]) IN
-        (IF x.t = "obj" THEN DeepPairs(prefix \o "[" \o k \o "]", x)
-         ELSE <<Pair(prefix \o "[" \o k \o "]", PrimText(x))>>) \o rest
+            rest == DeepPairs(prefix, [o EXCEPT !.k = Tail(o.k), !.v = Tail(o.v)], e, br)
+            key == prefix \o br[1] \o KeyE(e, k) \o br[2] IN
+        (IF x.t = "obj" THEN DeepPairs(key, x, e, br)
+         ELSE <<Pair(key, PrimCs(e, x))>>) \o rest
 
-QueryPairs(c, name, v) ==
-   CASE c.style = "deepObject" -> DeepPairs(name, v)
-     [] IsPrim(v) -> <<Pair(name, PrimText(v))>>
+(* the query pairs as character sequences (the L2 decoder model reads these) *)
+QueryPairsCs(c, name, v, e, mode) ==
+   CASE c.style = "deepObject" -> DeepPairs(name, v, e, IF mode = "rawbr" THEN <<<<"[">>, <<"]">>>> ELSE <<Pct("["), Pct("]")>>)
+     [] IsPrim(v) -> <<Pair(name, PrimCs(e, v))>>
      [] v.t = "arr" ->
-          IF c.explode THEN [i \in DOMAIN v.a |-> Pair(name, PrimText(v.a[i]))]
-          ELSE <<Pair(name, Join(Texts(v.a), CASE c.style = "form" -> ","
-                                               [] c.style = "spaceDelimited" -> " "
-                                               [] c.style = "pipeDelimited" -> "|"))>>
+          IF c.explode THEN [i \in DOMAIN v.a |-> Pair(name, PrimCs(e, v.a[i]))]
+          ELSE <<Pair(name, JoinCs(Items(e, v.a), CASE c.style = "form" -> <<",">>
+                                                    \* the two delimiters that are not URL characters, as clients write them
+                                                    [] c.style = "spaceDelimited" -> IF e.plus THEN <<"+">> ELSE Pct(" ")
+                                                    [] c.style = "pipeDelimited" -> Pct("|")))>>
      [] v.t = "obj" ->
-          IF c.explode THEN [i \in DOMAIN v.k |-> Pair(v.k[i], PrimText(v.v[i]))]
-          ELSE <<Pair(name, Join(FlatKV(v.k, v.v), ","))>>
+          IF c.explode THEN [i \in DOMAIN v.k |-> Pair(KeyE(e, v.k[i]), PrimCs(e, v.v[i]))]
+          ELSE <<Pair(name, JoinCs(FlatKV(e, v.k, v.v), <<",">>))>>
+QueryPairs(c, name, v, e, mode) ==
+   LET ps == QueryPairsCs(c, name, v, e, mode) IN [i \in DOMAIN ps |-> Pair(Concat(ps[i].k), Concat(ps[i].v))]
 
-HeaderVal(c, v) ==
-   CASE IsPrim(v) -> PrimText(v)
-     [] v.t = "arr" -> Join(Texts(v.a), ",")
-     [] v.t = "obj" -> IF c.explode THEN Join(KV(v, "="), ",") ELSE Join(FlatKV(v.k, v.v), ",")
+HeaderCs(c, v) ==
+   CASE IsPrim(v) -> PrimCs(NoEnc, v)
+     [] v.t = "arr" -> JoinCs(Items(NoEnc, v.a), <<",">>)
+     [] v.t = "obj" -> IF c.explode THEN JoinCs(KV(NoEnc, v, <<"=">>), <<",">>) ELSE JoinCs(FlatKV(NoEnc, v.k, v.v), <<",">>)
 
-CookieVal(c, v) ==
-   CASE IsPrim(v) -> PrimText(v)
-     [] v.t = "arr" -> Join(Texts(v.a), ",")
-     [] v.t = "obj" -> Join(FlatKV(v.k, v.v), ",")
+CookieCs(c, v) ==
+   CASE IsPrim(v) -> PrimCs(NoEnc, v)
+     [] v.t = "arr" -> JoinCs(Items(NoEnc, v.a), <<",">>)
+     [] v.t = "obj" -> JoinCs(FlatKV(NoEnc, v.k, v.v), <<",">>)
 
-Wire(c, name, v) ==
-   CASE c.in = "path"   -> [kind |-> "path", seg |-> PathSeg(c, name, v)]
-     [] c.in = "query"  -> [kind |-> "query", pairs |-> QueryPairs(c, name, v)]
-     [] c.in = "header" -> [kind |-> "header", val |-> HeaderVal(c, v)]
-     [] c.in = "cookie" -> [kind |-> "cookie", val |-> CookieVal(c, v)]
+(* name: the parameter's name as cs *)
+WireM(c, name, v, mode) ==
+   LET e == Enc(c, v, mode) IN
+   CASE c.in = "path"   -> [kind |-> "path", seg |-> Concat(PathCs(c, name, v, e))]
+     [] c.in = "query"  -> [kind |-> "query", pairs |-> QueryPairs(c, name, v, e, mode)]
+     [] c.in = "header" -> [kind |-> "header", val |-> Concat(HeaderCs(c, v))]
+     [] c.in = "cookie" -> [kind |-> "cookie", val |-> Concat(CookieCs(c, v))]
+Wire(c, name, v) == WireM(c, name, v, "min")
 
 (* text that is not a serialisation of the declared type, per kind of garbage *)
 Garbage(c, name, g) ==
-   LET t == CASE g = "nonnumeric" -> "abc" [] g = "oddpairs" -> "x,1,y" [] g = "noprefix" -> "7"
-                 [] g = "overflow32" -> "4294967338"      \* 2^32 + 42: not an int32
+   LET t == CASE g = "nonnumeric" -> <<"a", "b", "c">> [] g = "oddpairs" -> <<"x", ",", "1", ",", "y">> [] g = "noprefix" -> <<"7">>
+                 [] g = "overflow32" -> <<"4", "2", "9", "4", "9", "6", "7", "3", "3", "8">>      \* 2^32 + 42: not an int32
    IN
-   CASE c.in = "path"   -> [kind |-> "path", seg |-> (IF g = "noprefix" THEN t
-                                                       ELSE CASE c.style = "simple" -> t
-                                                              [] c.style = "label" -> "." \o t
-                                                              [] c.style = "matrix" -> ";" \o name \o "=" \o t)]
-     [] c.in = "query"  -> [kind |-> "query", pairs |-> <<Pair(name, t)>>]
-     [] c.in = "header" -> [kind |-> "header", val |-> t]
-     [] c.in = "cookie" -> [kind |-> "cookie", val |-> t]
+   CASE c.in = "path"   -> [kind |-> "path", seg |-> Concat(IF g = "noprefix" THEN t
+                                                              ELSE CASE c.style = "simple" -> t
+                                                                     [] c.style = "label" -> <<".">> \o t
+                                                                     [] c.style = "matrix" -> <<";">> \o name \o <<"=">> \o t)]
+     [] c.in = "query"  -> [kind |-> "query", pairs |-> <<Pair(Concat(name), Concat(t))>>]
+     [] c.in = "header" -> [kind |-> "header", val |-> Concat(t)]
+     [] c.in = "cookie" -> [kind |-> "cookie", val |-> Concat(t)]
+
+(* ---- which values a schema gives a type to ---- *)
+(* A parameter travels as text; the schema says what each piece of text is.  A property that the object schema     *)
+(* neither declares nor covers by an additionalProperties schema has no declared type: the value as a whole is     *)
+(* still valid or invalid (additionalProperties: false), but "decoded back to that same value" has no meaning.     *)
+RECURSIVE Typed(_, _)
+Typed(s, v) ==
+   IF v.t # "obj" \/ ~Has(s, "pk") THEN TRUE
+   ELSE \A i \in DOMAIN v.k :
+          LET pi == PropIdx(s, v.k[i]) IN
+          IF pi # 0 THEN Typed(s.ps[pi], v.v[i]) ELSE Has(s, "apSchema")
+UndeclaredKeys(s, v) == IF v.t = "obj" /\ Has(s, "pk") THEN {v.k[i] : i \in DOMAIN v.k} \ Range(s.pk) ELSE {}
 =============================================================================
